@@ -103,6 +103,11 @@ def lattice_case(item, ctx=None):
   spell = (sum(sizes) + units + item["seed"]) % 2 == 1   # alternate int / string spellings
   mono_arg = [{1: "increasing", 0: "none"}[m] for m in mono] if spell else mono
   uni_arg = [{1: "valley", -1: "peak", 0: "none"}[u] for u in uni] if spell else uni
+  # "nothing configured" is spelled both as a list of zeros and as the default None
+  if not any(mono) and not spell:
+    mono_arg = None
+  if not any(uni) and spell:
+    uni_arg = None
   layer = tfl.layers.Lattice(lattice_sizes=sizes, units=units, monotonicities=mono_arg,
                              unimodalities=uni_arg, output_min=lo, output_max=hi,
                              kernel_initializer=item["init"], **kw)
